@@ -81,8 +81,10 @@ Proof.
       * cbn [andb negb]. split_char c c_sp.
         { closed_eqb. cbn [orb usize_dec]. rewrite finish_eq. cbn [inj_pnv length]. do 2 f_equal. lia. }
         split_char c c_hash.
-        { closed_eqb. cbn [orb usize_dec]. rewrite finish_eq. cbn [inj_pnv length]. do 2 f_equal. lia. }
-        cbn [orb]. destruct (stop_on_equals fl); cbn [andb]; [|apply (IH (S i)); auto].
+        { closed_eqb. destruct (control_as_char fl); cbn [negb andb orb].
+          - rewrite andb_false_r. apply (IH (S i)); auto.
+          - cbn [usize_dec]. rewrite finish_eq. cbn [inj_pnv length]. do 2 f_equal. lia. }
+        cbn [orb andb]. destruct (stop_on_equals fl); cbn [andb]; [|apply (IH (S i)); auto].
         split_char c c_eq; [|apply (IH (S i)); auto].
         closed_eqb. cbn [orb usize_dec]. rewrite finish_eq. cbn [inj_pnv length]. do 2 f_equal. lia.
 Qed.
@@ -103,8 +105,10 @@ Proof.
     cbn [p_index p_in_argument p_in_control p_found_variable_prefix p_using_quotes p_argument p_found_end].
     cbn [skip].
     split_char c c_hash.
-    { unfold pnv_finish. cbn. now replace (length line - 0)%nat with (length line) by lia. }
-    split_char c c_sp; [apply (IH (S i)); assumption|]. cbn [negb].
+    { destruct (control_as_char fl) eqn:Ec; cbn [negb andb].
+      - closed_eqb. cbn [negb andb]. apply (loop_in_arg fl line l (S i)); auto.
+      - unfold pnv_finish. cbn. now replace (length line - 0)%nat with (length line) by lia. }
+    cbn [andb]. split_char c c_sp; [apply (IH (S i)); assumption|]. cbn [negb].
     split_char c c_quote.
     { destruct (allow_quotes fl); [|reflexivity]. apply (loop_in_arg fl line l (S i)); auto. }
     split_char c c_bs.
